@@ -44,6 +44,19 @@ CLAIMS.update({
         text="From a module configuration built by 0..3 WithEnv calls (real append capacities via a model of runtime.growslice), two sibling derivations and one grandchild derivation by arbitrary With... calls "
              "(symbolic strings, keys colliding or not) leave parent and earlier child deeply unchanged (backing arrays compared); same for FSConfig mounts (slices, map, preopens copies) and every RuntimeConfig With.... "
              "Data races between goroutines are outside the claim."),
+    "C02": dict(level="model_checking", engine="gosym", technique=E1_TECH, design_ref="DESIGN.md §5 C02",
+        text="Interpreter side, through the real decode/validate/compile/instantiate/call pipeline: each of the 23 scalar load/store instructions, for all 2^32 base addresses, all 2^32 static offsets "
+             "(patched symbolically into the lowered operation), all memory sizes 0..65536 pages (symbolic 64-bit length) and contents, traps with out-of-bounds iff base+offset+width > size, leaves memory unchanged on trap "
+             "and otherwise touches exactly [ea, ea+width); memory.copy/init for all operands, memory.fill for lengths 0..9. The compiler (wazevo) side is not yet covered by this check; SIMD and atomic accesses are outside the claim."),
+    "C05": dict(level="model_checking", engine="gosym", technique=E1_TECH, design_ref="DESIGN.md §5 C05",
+        text="Interpreter side, through the real pipeline (binary -> DecodeModule -> Validate -> interpreter compiler -> callNativeFunc): every scalar integer instruction (i32/i64 arithmetic, bit, shift/rotate, comparison, "
+             "clz/ctz/popcnt, extensions, wrap, reinterpret), every f32/f64 binary instruction incl. min/max/copysign and comparisons, abs/neg/ceil/floor/trunc/sqrt, all 16 trapping and saturating float-to-int truncations "
+             "and all int-to-float conversions, demote and promote equal the specification for ALL operand values (floats via the SMT floating-point theory; any arithmetic NaN accepted where the specification yields NaN). "
+             "f32/f64.nearest, v128 instructions and the compiler side are outside this claim."),
+    "C08": dict(level="model_checking", engine="gosym", technique=E1_TECH, design_ref="DESIGN.md §5 C08",
+        text="Interpreter side: for every stack-based host function signature of 0..3 params and 0..2 results over {i32,i64,f32,f64} and all values, the host receives exactly the guest's values and guest and Go caller "
+             "(Call and CallWithStack) receive exactly the host's results; reflection-defined host functions (a model of the reflect calls callGoFunc makes) for four representative signatures; api Encode/Decode round trips. "
+             "wazevo's entry preambles and Go-call trampolines are outside this claim."),
 })
 
 NOT_APPLICABLE = {
